@@ -119,13 +119,14 @@ class ObjMachine(Machine):
             max_lines=w.choice([3, 6, 10] if self.tier == "thorough" else [3, 6]), p_flags=0.2,
             p_log=0.2,
             group_by=gen.HEAD if w.random() < 0.4 else "",
+            log_level=w.choice(["DEBUG", "WARNING"]),
         )
 
     def reset(self, cfg):
         self.cfg = cfg
         self.ids.install()
         self.memo.install()
-        self.log.install()
+        self.log.install(cfg.get("log_level", "DEBUG"))
         self.slots = []
 
     def teardown(self):
